@@ -296,6 +296,11 @@ theorem step_inv {F : Facts} (hG : Good F) {s : St} (hI : Inv s) (op : Op) (hv :
     have hpos := hI.strong_pos_of_pkg hv
     simp only [step, hG.holds, if_true]
     exact addHandle_inv hI { k := k, holds := true, expect := callRes s k } hpos rfl (callRes_ok hc hpos)
+  | getTest k =>
+    simp only [valid, List.contains_eq_mem, decide_eq_true_eq] at hv
+    have hpos := hI.strong_pos_of_pkg hv
+    simp only [step, hG.holds, hG.test, Bool.and_self, if_true]
+    exact addHandle_inv hI { k := k, holds := true, expect := callRes s k, isFn := true } hpos rfl (callRes_ok hc hpos)
   | cloneHandle i =>
     simp only [step]
     cases hi : s.hs[i]? with
@@ -375,6 +380,7 @@ def obs (s : St) (j : Nat) : Obs :=
 def target (s : St) : Op → Option Nat
   | .compile _ k _ _ _ _ _ => some k
   | .getHandle k => some k
+  | .getTest k => some k
   | .dropPackage k => some k
   | .cloneHandle i => (s.hs[i]?).map (·.k)
   | .intoFunc i => (s.hs[i]?).map (·.k)
@@ -419,6 +425,12 @@ theorem frame {F : Facts} (hG : Good F) {s : St} (hI : Inv s) (op : Op) (hv : va
     · show j ∈ k' :: s.compiled ↔ _
       simp [hjk]
   | getHandle k' =>
+    simp only [target, Option.some.injEq] at ht; subst ht
+    simp only [step]
+    refine ⟨(by triv), ?_, (by triv), (by triv)⟩
+    show (s.hs ++ [_]).filter _ = _
+    simp [List.filter_append, hkj]
+  | getTest k' =>
     simp only [target, Option.some.injEq] at ht; subst ht
     simp only [step]
     refine ⟨(by triv), ?_, (by triv), (by triv)⟩
